@@ -71,7 +71,9 @@ type xStep struct {
 	Q   int           `json:"q"`
 }
 type xWalk struct {
-	W []xStep `json:"w"`
+	W    []xStep         `json:"w"`    // a whole behaviour with the observation after every step
+	Acts [][]interface{} `json:"acts"` // or: the actions leading to the pre-state ...
+	Last *xStep          `json:"last"` // ... and the transition to check
 }
 
 // votes may be serialised as an array (domain 1..n) or an object keyed by round
@@ -535,11 +537,17 @@ func TestEnvReplay(t *testing.T) {
 			res.Mismatch("infra:parse", err.Error(), string(raw[:min(len(raw), 300)]))
 			return
 		}
+		if walk.Last != nil { // compact transition format
+			for _, a := range walk.Acts {
+				walk.W = append(walk.W, xStep{A: a})
+			}
+			walk.W = append(walk.W, *walk.Last)
+		}
 		if len(walk.W) == 0 {
 			return
 		}
 		from := 0
-		if lastOnly {
+		if lastOnly || walk.Last != nil {
 			from = len(walk.W) - 1
 		}
 		runWalk(res, w, me, &walk, from, myBid, "node:")
